@@ -21,12 +21,14 @@ RULE = ("cases = (width in {1,7,8,9,16,24,33,...}, endianness, endpoint number, 
         "model only")
 ASSUMPTIONS = ["width >= 1",
                "modelled code = repaired code: WAIT_FOR_ACK takes handshakes_in.ack only while the tokenizer shows an "
-               "IN token for this endpoint (fix commit on branch wt-in)",
+               "IN token for this endpoint (/repo 51520eb); ClearFeature(ENDPOINT_HALT) naming this IN endpoint resets the "
+               "toggle to DATA0 in every state (/repo 61d16f5)",
                "handshakes_in.ack and tokenizer.new_token are never high in the same cycle (they are decoded "
                "from different packets of one receive stream); the model still mirrors the gateware there"]
 PARTIAL = ""
 
-NAMES_IN = ["endpoint", "is_in", "ready_for_response", "new_token", "ack", "tx_ready", "signal"]
+NAMES_IN = ["endpoint", "is_in", "ready_for_response", "new_token", "ack", "tx_ready", "signal", "clear_halt",
+            "(halt_enable)", "(halt_direction)", "(halt_number)"]
 NAMES_OUT = ["tx_valid", "tx_first", "tx_last", "tx_payload", "tx_pid_toggle", "status_read_complete"]
 WIDTHS_Q = [1, 7, 8, 9, 16, 24, 33]
 WIDTHS_T = [1, 2, 7, 8, 9, 15, 16, 17, 24, 31, 32, 33, 40, 48, 56, 57, 63, 64]
@@ -58,6 +60,19 @@ class Host:
         self.last_ready = 0
         self.plan = None
 
+    def halt(self):
+        """clear_endpoint_halt_in (enable, direction, number): mostly quiet; strobes for this IN endpoint, for the
+        OUT direction, and for other endpoint numbers."""
+        r = self.r
+        if not r.chance(12, 1000):
+            return [0, r.below(2), r.below(16)]
+        k = r.below(4)
+        if k <= 1:
+            return [1, 1, self.ep]
+        if k == 2:
+            return [1, 0, self.ep]
+        return [1, 1, (self.ep + r.range(1, 15)) % 16]
+
     def signal(self):
         k = self.r.below(16)
         if k == 0:
@@ -78,7 +93,7 @@ class Host:
                 self.endpoint = self.ep if r.chance(80) else (self.ep + 1) % 16
                 self.is_in = int(r.chance(85))
             row = [self.endpoint, self.is_in, int(r.chance(max(p, 20))), nt, ack,
-                   int(r.chance(self.ready_p)), self.signal()]
+                   int(r.chance(self.ready_p)), self.signal()] + self.halt()
             return row
         nt = rfr = ack = 0
         pv = prev or (0, 0, 0, 0, 0, 0)
@@ -144,7 +159,7 @@ class Host:
                     self.phase, self.cnt = "gap", r.range(0, 8)
         ready = int(r.chance(self.ready_p))
         self.last_ready = ready
-        return [self.endpoint, self.is_in, rfr, nt, ack, ready, self.signal()]
+        return [self.endpoint, self.is_in, rfr, nt, ack, ready, self.signal()] + self.halt()
 
 
 def serialise(v, width, big):
@@ -165,12 +180,19 @@ def monitor(width, big, ep, stim, rows):
             fails.append({"cycle": t, "sig": sig, "what": "width=%d big=%d: %s" % (width, big, what)})
 
     completes, phase, value, k = 0, "fresh", None, 0
+    exp_toggle = 0
     for t, (i, o) in enumerate(zip(stim, rows)):
-        endpoint, is_in, rfr, nt, ack, ready, sig = i
+        endpoint, is_in, rfr, nt, ack, ready, sig, clear_halt = i[:8]
         valid, first, last, payload, toggle, complete = o
         req = endpoint == ep and is_in and rfr
-        if toggle != completes % 2:
-            fail(t, "toggle-vs-acks", "tx_pid_toggle=%d after %d acknowledged polls" % (toggle, completes))
+        if toggle != exp_toggle:
+            fail(t, "toggle-vs-acks", "tx_pid_toggle=%d, expected %d (%d acknowledged polls, halt clears reset it to 0)"
+                 % (toggle, exp_toggle, completes))
+        if complete:
+            exp_toggle ^= 1
+        if clear_halt:                     # ClearFeature(ENDPOINT_HALT) for this IN endpoint: DATA0 next, wins over an ACK
+            exp_toggle = 0
+            tags.add("halt-clear-in-" + phase)
         if phase == "sending":
             want = serialise(value, width, big)
             if not valid:
@@ -232,13 +254,18 @@ def run_case(desc):
     dut = USBSignalInEndpoint(width=w, endpoint_number=ep, endianness="big" if big else "little",
                               signal_domain="sync" if desc.get("cdc") and w == 1 else "usb")
     itf = dut.interface
+    ch = itf.clear_endpoint_halt_in
     ins = [itf.tokenizer.endpoint, itf.tokenizer.is_in, itf.tokenizer.ready_for_response,
-           itf.tokenizer.new_token, itf.handshakes_in.ack, itf.tx.ready, dut.signal]
+           itf.tokenizer.new_token, itf.handshakes_in.ack, itf.tx.ready, dut.signal, ch.enable, ch.direction, ch.number]
     outs = [itf.tx.valid, itf.tx.first, itf.tx.last, itf.tx.payload, itf.tx_pid_toggle,
             dut.status_read_complete]
     mode = desc.get("mode", "host")
-    stim, rows = in_util.run(dut, ins, outs, desc, lambda: Host(Rng(desc["seed"]), w, ep, mode),
-                             desc.get("cycles", 500))
+    if desc.get("stimulus"):      # replay rows are in the model's format: 7 ports, clear_halt, then the 3 raw halt ports
+        desc = dict(desc)
+        desc["stimulus"] = [list(r[:7]) + (list(r[8:11]) if len(r) >= 11 else [0, 0, 0]) for r in desc["stimulus"]]
+    raw, rows = in_util.run(dut, ins, outs, desc, lambda: Host(Rng(desc["seed"]), w, ep, mode),
+                            desc.get("cycles", 500))
+    stim = [list(r[:7]) + [int(bool(r[7] and r[8] and r[9] == ep))] + list(r[7:10]) for r in raw]
     legal = all(not (r[3] and r[4]) for r in stim)
     fails, tags = monitor(w, big, ep, stim, rows) if legal else ([], ["env-illegal"])
     tags += ["mode=" + mode, "bytes=%d" % ((w + 7) // 8) if w <= 16 else "bytes>2", "big=%d" % big]
